@@ -390,4 +390,5 @@ type OldRow struct {
 	Unknown string         // non-empty: why the previous content is not known
 	Row     map[string]Val // previous columns
 	Stale   string         // non-empty: the basis read precedes a later write to the same key
+	From    int            // index+1 of the event (read or write) the previous content was taken from; 0 = none
 }
